@@ -41,11 +41,11 @@ def check(ctx: Ctx, rep: Report):
     rejected = prog.cls("RequestRejectedException")
     # ---- R1 table
     mb = prog.modules["goodwe.modbus"]
-    b = mb.scope.get("FAILURE_CODES")
+    b = prog.lookup(mb, "FAILURE_CODES")          # defined here or imported (under this or another name)
     if not b or b[0] != "const":
         raise AnalysisError("modbus.FAILURE_CODES not found")
     try:
-        table = prog.consteval(b[1], mb)
+        table = prog.consteval(ast.Name(id="FAILURE_CODES", ctx=ast.Load()), mb)
     except NotConst as e:
         raise AnalysisError("FAILURE_CODES is not a constant table: %s" % e)
     for code, text in MODBUS_EXCEPTION_CODES.items():
@@ -196,7 +196,25 @@ def r2(ctx, rep, rejected):
                   bad="%s no longer lets RequestRejectedException through (converted or swallowed)" % name)
 
 
-def r3(ctx, rep, rejected, table):
+def failure_table(ctx):
+    prog = ctx.prog
+    mb = prog.modules["goodwe.modbus"]
+    b = prog.lookup(mb, "FAILURE_CODES")
+    if not b or b[0] != "const":
+        raise AnalysisError("modbus.FAILURE_CODES not found")
+    try:
+        return prog.consteval(ast.Name(id="FAILURE_CODES", ctx=ast.Load()), mb)
+    except NotConst as e:
+        raise AnalysisError("FAILURE_CODES is not a constant table: %s" % e)
+
+
+def message_comparisons(ctx, rep, rule: str):
+    """C08.R3 for the properties that rest on the capability fallbacks (C15: refused blocks disappear; C18: a refused
+    setting is forgotten, so a later write of it is an 'unknown id')."""
+    r3(ctx, rep, ctx.prog.cls("RequestRejectedException"), failure_table(ctx), rule)
+
+
+def r3(ctx, rep, rejected, table, rule: str = "C08.R3"):
     prog = ctx.prog
     inv = prog.cls("Inverter")
     n = 0
@@ -227,7 +245,7 @@ def r3(ctx, rep, rejected, table):
                         v = prog.consteval(other[0], f.module)
                     except NotConst:
                         v = None
-                    rep.check(v in table.values(), "C08.R3", "cmp:%s:%s" % (m.short, norm(cmp_)), f.loc(cmp_),
+                    rep.check(v in table.values(), rule, "cmp:%s:%s" % (m.short, norm(cmp_)), f.loc(cmp_),
                               "%s compares the rejection message with the table value %r" % (m.short, v),
                               bad="%s compares ex.message with %s (%r), which is not a reason the validators can produce" % (f.short, norm(other[0]), v))
                 if used:
